@@ -331,7 +331,9 @@ func (pg *program) generatePackage(pkgInfo *loader.PackageInfo) error {
 
 		newundefined := strings.Join(us, ";")
 		if newundefined == undefined {
-			break
+			// a reload has not made any of these calls inferable: there is nothing more to try,
+			// whether or not other functions were generated in this pass.
+			return fmt.Errorf("cannot generate: %s", undefined)
 		}
 		undefined = newundefined
 
